@@ -46,6 +46,28 @@ def run_e2e(args):
                 import gc, time
                 gc.collect(); time.sleep(0.05)
                 rec["runs"].append({"T": T, "kind": "drop", "k": k, "got": part, "threads_alive": len(os.listdir("/proc/self/task")) - base_threads})
+        # attribute layouts: several attributes, scalars, declared dtypes with an explicit byte order — every value bit for bit
+        try:
+            from sedpack.io import Attribute
+            import numpy as np
+            aroot = root + "_attrs"
+            adecl = [("a", "int32", (2,)), ("b", ">f8", ()), ("c", ">u2", (3,)), ("d", "float16", (2, 2)), ("e", "<i8", ())]
+            ads = sp.mk(aroot, fmt="fb", comp=a["comp"], eps=a["eps"], attrs=[Attribute(name=n, dtype=d, shape=s) for n, d, s in adecl])
+            with ads.filler() as f:
+                for i in range(2 * a["eps"] + 1):
+                    f.write_example(values={"a": np.array([i, i], dtype=np.int32), "b": np.float64(i + 0.5), "c": np.array([i, 256 + i, 65535 - i], dtype=np.uint16),
+                                            "d": np.array([[i, 0.5], [-i, 1024.0]], dtype=np.float16), "e": np.int64(-(1 << 40) - i)}, split="train")
+            ads = Dataset(aroot)
+            def canon(e):
+                return {n: [np.dtype(d).newbyteorder("=").name == np.asarray(e[n]).dtype.newbyteorder("=").name, list(np.asarray(e[n]).shape),
+                            np.ascontiguousarray(np.asarray(e[n]).astype(np.dtype(d).newbyteorder("="))).tobytes().hex()] for n, d, s in adecl}
+            py_ex = [canon(e) for e in ads.as_numpy_iterator(split="train", repeat=False, shuffle=0)]
+            ru_ex = [canon(e) for e in ads.as_numpy_iterator_rust(split="train", repeat=False, shuffle=0, file_parallelism=2)]
+            rec["runs"].append({"T": 2, "kind": "layouts", "same": py_ex == ru_ex, "n": len(py_ex),
+                                "first_diff": next(({"example": i, "python": p, "rust": r} for i, (p, r) in enumerate(zip(py_ex, ru_ex)) if p != r), None)})
+            shutil.rmtree(aroot, ignore_errors=True)
+        except BaseException as e:  # noqa: BLE001
+            rec["runs"].append({"T": 2, "kind": "layouts", "error": f"{type(e).__name__}: {str(e)[:150]}"})
         # several Rust-backed passes alive at the same time with staggered life times: A and B open, A ends while B is
         # mid-pass, C opens, B and C are consumed alternately (train / validation passes interleaved in one process)
         if nsh >= 2:
@@ -143,6 +165,11 @@ def run(ctx):
             sig = {"kind": run_["kind"], "level": "extension", "T_lt_n": run_["T"] < r["nshards"]}
             if "error" in run_:
                 ctx.report(dict(sig, what="error"), f"as_numpy_iterator_rust(T={run_['T']}) raised {run_['error']}", {"case": r["case"], "run": run_}); continue
+            if run_["kind"] == "layouts":
+                if not run_["same"]:
+                    ctx.report(dict(sig, what="attribute-values"), f"the Rust reader and the Python reader disagree on attribute values (several attributes, explicit byte-order dtypes): {json.dumps(run_['first_diff'])[:300]}",
+                               {"case": r["case"], "run": run_})
+                continue
             if run_["kind"] == "overlap3":
                 if run_["got"] != run_["want"]:
                     bad = [k for k in ("A", "B", "C") if run_["got"][k] != run_["want"][k]]
